@@ -11,8 +11,8 @@
 #include "q120h.h"
 #include "oracle.h"
 
-typedef enum { CL_BITWISE, CL_MODQ, CL_ROUND_ZNX64, CL_ROUND_TNX32, CL_TORUS, CL_FLOAT } pclass_t;
-static const char* cl_name[] = {"bitwise", "modq", "rounded-int64", "rounded-torus32", "torus-double", "float-budget"};
+typedef enum { CL_BITWISE, CL_MODQ, CL_ROUND_ZNX64, CL_ROUND_TNX32, CL_TORUS, CL_FLOAT, CL_POINTWISE } pclass_t;
+static const char* cl_name[] = {"bitwise", "modq", "rounded-int64", "rounded-torus32", "torus-double", "float-budget", "pointwise-product"};
 
 static pclass_t classify(const char* name) {
   if (strstr(name, "q120") && strstr(name, "product")) return CL_MODQ;
@@ -24,8 +24,13 @@ static pclass_t classify(const char* name) {
   if (strstr(name, "znx_add") || strstr(name, "znx_sub") || strstr(name, "znx_negate") || strstr(name, "vec_znx_") || strstr(name, "extract") || strstr(name, "save") || strstr(name, "from_znx") ||
       strstr(name, "from_tnx32") || strstr(name, "from_cplx") || strstr(name, "to_cplx") || strstr(name, "rnx_divide"))
     return CL_BITWISE;
+  // pointwise complex products: every output component is two products and a sum of the corresponding input components
+  if ((strstr(name, "fftvec_mul") || strstr(name, "fftvec_addmul")) && !strstr(name, "(r==") && !strstr(name, "twiddle")) return CL_POINTWISE;
   return CL_FLOAT;
 }
+// component index of element j (part 0 real, 1 imaginary) in the three layouts: 0 reim (split), 1 cplx (interleaved), 2 reim4 (blocks of 4+4)
+static size_t comp_idx(int layout, size_t m, size_t j, int part) { return layout == 0 ? j + (part ? m : 0) : (layout == 1 ? 2 * j + (size_t)part : 8 * (j / 4) + (j % 4) + (part ? 4 : 0)); }
+static const char* cur_pair_name = "";
 
 // compares captured outputs a (reference) and b (accelerated); returns 0 when equivalent for the class
 static int compare(pclass_t cl, const opres_t* ra, const opres_t* rb, char* msg, size_t msglen, double* worst) {
@@ -98,6 +103,38 @@ static int compare(pclass_t cl, const opres_t* ra, const opres_t* rb, char* msg,
       }
       return 0;
     }
+    case CL_POINTWISE: {
+      // component-wise: |reference - accelerated| <= 8u (|ar br| + |ai bi| (+ |r|)) for the real part, likewise for the imaginary part.
+      // A norm-wise bound per complex number would accept regroupings of the product that lose the smaller component entirely.
+      const double* x = (const double*)ra->cap_out;
+      const double* y = (const double*)rb->cap_out;
+      const size_t m = nb / 16;
+      const int layout = strstr(cur_pair_name, "reim4_") ? 2 : (strstr(cur_pair_name, "cplx_") ? 1 : 0);
+      const int acc = strstr(cur_pair_name, "addmul") != 0;
+      const size_t nin = ra->cap_in_bytes / nb;  // number of 2m-double input vectors captured: [r] a [b]
+      if (nin != (size_t)(acc ? 1 : 0) + 1 && nin != (size_t)(acc ? 1 : 0) + 2) {
+        snprintf(msg, msglen, "unexpected capture layout (%zu input vectors)", nin);
+        return 1;
+      }
+      const double* in = (const double*)ra->cap_in;
+      const double* r0 = acc ? in : 0;
+      const double* a = in + (acc ? 2 * m : 0);
+      const double* b = nin == (size_t)(acc ? 1 : 0) + 2 ? a + 2 * m : a;
+      for (size_t j = 0; j < m; j++) {
+        const size_t ir = comp_idx(layout, m, j, 0), ii = comp_idx(layout, m, j, 1);
+        const long double ar = a[ir], ai = a[ii], br = b[ir], bi = b[ii];
+        const long double bre = fabsl(ar * br) + fabsl(ai * bi) + (r0 ? fabsl((long double)r0[ir]) : 0);
+        const long double bim = fabsl(ar * bi) + fabsl(ai * br) + (r0 ? fabsl((long double)r0[ii]) : 0);
+        const long double dre = fabsl((long double)x[ir] - y[ir]), dim = fabsl((long double)x[ii] - y[ii]);
+        if (isnan(x[ir]) || isnan(y[ir]) || isnan(x[ii]) || isnan(y[ii]) || dre > 0x1p-50L * bre + 0x1p-1070L || dim > 0x1p-50L * bim + 0x1p-1070L) {
+          snprintf(msg, msglen, "element %zu: reference (%.17g, %.17g) accelerated (%.17g, %.17g): difference beyond 8 units of rounding of the component's terms (a=(%.6g,%.6g) b=(%.6g,%.6g))", j, x[ir], x[ii], y[ir], y[ii],
+                   (double)ar, (double)ai, (double)br, (double)bi);
+          return 1;
+        }
+        if (bre > 0 && (double)(dre / bre) > *worst) *worst = (double)(dre / bre);
+      }
+      return 0;
+    }
     default: {
       const double* x = (const double*)ra->cap_out;
       const double* y = (const double*)rb->cap_out;
@@ -134,6 +171,7 @@ static void pair_case(int oi, uint64_t N, unsigned sd) {
   const opdef_t* ref = op_lookup(acc->twin);
   if (!ref) harness_fail("catalogue: twin %s of %s not found", acc->twin, acc->name);
   const pclass_t cl = classify(acc->name);
+  cur_pair_name = acc->name;
   char key[160];
   snprintf(key, sizeof key, "%s~%s|%s", acc->name, acc->twin, cl_name[cl]);
   if (!case_begin(key, "N=%" PRIu64 " seed=%u", N, sd)) return;
@@ -197,6 +235,7 @@ static void concurrent_pair_case(int oi, uint64_t N, unsigned rep) {
   const opdef_t* acc = &OPS[oi];
   const opdef_t* ref = op_lookup(acc->twin);
   const pclass_t cl = classify(acc->name);
+  cur_pair_name = acc->name;
   char key[160];
   snprintf(key, sizeof key, "%s~%s|%s,4 threads", acc->name, acc->twin, cl_name[cl]);
   if (!case_begin(key, "N=%" PRIu64 " rep=%u", N, rep)) return;
@@ -250,6 +289,7 @@ static void dispatch_case(int oi, uint64_t N, unsigned sd, int cfg) {
   if (!strncmp(o->name, "vec_znx_idft", 12) && !strstr(o->name, "@ntt120")) cl = CL_ROUND_ZNX64;  // every FFT64 inverse DFT entry (in-place one included) ends with a rounding
   if (!strcmp(o->name, "reim_to_tnx")) cl = CL_TORUS;
   char key[160];
+  cur_pair_name = o->name;
   snprintf(key, sizeof key, "%s@%s~generic|%s", o->name, disp_name[cfg], cl_name[cl]);
   if (!case_begin(key, "N=%" PRIu64 " seed=%u", N, sd)) return;
   opres_t ra, rb;
